@@ -12,6 +12,11 @@ From TskVerif Require Import C01.EdgeProofs.
 From TskVerif Require Import C01.LinkProofs.
 From TskVerif Require Import C01.RepProofs.
 From TskVerif Require Import C01.TraversalProofs.
+From TskVerif Require Import C01.ClosedProofs.
+From TskVerif Require Import C01.NumEdgesProofs.
+From TskVerif Require Import C01.OrderProofs.
+From TskVerif Require Import C01.PostorderProofs.
+From TskVerif Require Import C01.ViewsProofs.
 From TskVerif Require Import C01.Theorems.
 Import ListNotations.
 Open Scope Z_scope.
@@ -230,3 +235,81 @@ Theorem preorder_correct : forall L ns es Ins Rem q,
       (root = -1 /\ exists ls, Forall2 (Pre K) (K N) ls /\ out = concat ls) \/
       (0 <= root <= N /\ Pre K root out).
 Proof. exact preorder_correct_lemma. Qed.
+
+(* (d, closed form of the counts) [sub_counts fuel P smp] evaluates, from scratch on a parent
+   array, count(u) = smp u + sum of count(c) over the children c of u, to recursion depth fuel.
+   In every tree of the sweep num_samples[u] / num_tracked_samples[u] equal that naive count of
+   (tracked) sample nodes in the whole subtree of u (depth N+1 exhausts every subtree because
+   parents are strictly older). *)
+Theorem counts_closed_form : forall L ns es Ins Rem q,
+  valid_edgesb L ns es = true -> index_sorted es Ins Rem -> mk_tseq L ns es Ins Rem = Ok q ->
+  forall o k t, tree_at_index q o k = Ok t ->
+  let N := zlen ns in
+  forall u, 0 <= u < N ->
+    get (t_ns t) u = get (sub_counts (S (Z.to_nat N)) (t_parent t) (ind (q_samples q))) u /\
+    get (t_nt t) u = get (sub_counts (S (Z.to_nat N)) (t_parent t) (ind (o_tracked o))) u.
+Proof. exact counts_closed_form_lemma. Qed.
+
+(* (d, num_edges) num_edges is the number of nodes that have a parent *)
+Theorem num_edges_exact : forall L ns es Ins Rem q,
+  valid_edgesb L ns es = true -> index_sorted es Ins Rem -> mk_tseq L ns es Ins Rem = Ok q ->
+  forall o k t, tree_at_index q o k = Ok t -> t_num_edges t = nparents (t_parent t).
+Proof. exact num_edges_exact_lemma. Qed.
+
+(* (d, roots) Tree.roots (left_root, right_sib, ...) returns, without running out of fuel, a
+   duplicate-free list of exactly the parentless nodes with >= root_threshold samples below
+   them, and num_roots is its length *)
+Theorem roots_correct : forall L ns es Ins Rem q,
+  valid_edgesb L ns es = true -> index_sorted es Ins Rem -> mk_tseq L ns es Ins Rem = Ok q ->
+  forall o, 1 <= o_thr o -> forall k t, tree_at_index q o k = Ok t ->
+  exists rs, roots_of (zlen ns) t = Ok rs /\ NoDup rs /\ get (t_nc t) (zlen ns) = Ok (zlen rs) /\
+    forall c, In c rs <->
+      0 <= c < zlen ns /\ get (t_parent t) c = Ok NULL /\ exists n, get (t_ns t) c = Ok n /\ o_thr o <= n.
+Proof. exact roots_correct_lemma. Qed.
+
+(* (d, timeasc / timedesc) for any tree and start node: Tree.timeasc is a permutation of the
+   preorder whose keys (virtual root last, then time, then id) are sorted; timedesc is its
+   reverse *)
+Theorem timeasc_sorted_perm : forall q t root l,
+  timeasc q t root = Ok l ->
+  exists pre ks,
+    preorder_from (q_N q) t root = Ok pre /\ Permutation.Permutation l pre /\
+    Forall2 (fun u k => tkey q u = Ok k) l ks /\ StronglySorted kle ks.
+Proof. exact timeasc_spec. Qed.
+
+Theorem timedesc_is_reverse : forall q t root l,
+  timedesc q t root = Ok l -> exists a, timeasc q t root = Ok a /\ l = rev a.
+Proof. exact timedesc_spec. Qed.
+
+(* (d, postorder) [Post K u l]: l = the postorders of the children of u in list order, then u.
+   In every tree of the sweep tsk_tree_postorder_from(root) (explicit stack + the
+   postorder_parent test `u != postorder_parent`) returns the recursive postorder over the child
+   lists: of root itself; for root = -1 the concatenation over the roots; for the virtual root
+   that concatenation followed by the virtual root. *)
+Theorem postorder_correct : forall L ns es Ins Rem q,
+  valid_edgesb L ns es = true -> index_sorted es Ins Rem -> mk_tseq L ns es Ins Rem = Ok q ->
+  forall o, 1 <= o_thr o -> forall k t, tree_at_index q o k = Ok t ->
+  let N := zlen ns in
+  exists K : Z -> list Z,
+    (forall p, 0 <= p <= N -> children_of t p = Ok (K p)) /\
+    forall root out, postorder_from N t root = Ok out ->
+      (root = -1 /\ exists ls, Forall2 (Post K) (K N) ls /\ out = concat ls) \/
+      (root = N /\ exists ls, Forall2 (Post K) (K N) ls /\ out = concat ls ++ [N]) \/
+      (0 <= root < N /\ Post K root out).
+Proof. exact postorder_correct_lemma. Qed.
+
+(* (d, Python-only orders) in every tree of the sweep Tree._inorder_traversal is the recursive
+   inorder over the child lists ([InO]: the first |children|/2 subtrees, the node, the rest) and
+   Tree._levelorder_traversal is the queue algorithm over the child lists ([BFS]: pop the head,
+   append its children), started from the roots (root = None) or from the given node. *)
+Theorem pyviews_correct : forall L ns es Ins Rem q,
+  valid_edgesb L ns es = true -> index_sorted es Ins Rem -> mk_tseq L ns es Ins Rem = Ok q ->
+  forall o, 1 <= o_thr o -> forall k t, tree_at_index q o k = Ok t ->
+  let N := zlen ns in
+  exists K : Z -> list Z,
+    (forall p, 0 <= p <= N -> children_of t p = Ok (K p)) /\
+    (forall root out, root = -1 \/ 0 <= root <= N ->
+       let starts := if root =? -1 then K N else [root] in
+       (inorder N t root = Ok out -> exists ls, Forall2 (InO K) starts ls /\ out = concat ls) /\
+       (levelorder N t root = Ok out -> BFS K starts out)).
+Proof. exact pyviews_correct_lemma. Qed.
